@@ -1,4 +1,6 @@
 
+type __ = Obj.t
+
 val negb : bool -> bool
 
 type nat =
@@ -38,6 +40,8 @@ type z =
 
 module Nat :
  sig
+  val sub : nat -> nat -> nat
+
   val eqb : nat -> nat -> bool
 
   val leb : nat -> nat -> bool
@@ -45,6 +49,10 @@ module Nat :
   val ltb : nat -> nat -> bool
 
   val min : nat -> nat -> nat
+
+  val divmod : nat -> nat -> nat -> nat -> nat * nat
+
+  val modulo : nat -> nat -> nat
  end
 
 module Pos :
@@ -101,6 +109,8 @@ module Coq_Pos :
   val to_nat : positive -> nat
 
   val of_succ_nat : nat -> positive
+
+  val eq_dec : positive -> positive -> bool
  end
 
 module Z :
@@ -144,6 +154,8 @@ module Z :
   val div_eucl : z -> z -> z * z
 
   val ggcd : z -> z -> z * (z * z)
+
+  val eq_dec : z -> z -> bool
  end
 
 val hd : 'a1 -> 'a1 list -> 'a1
@@ -168,6 +180,16 @@ val repeat : 'a1 -> nat -> 'a1 list
 
 type q = { qnum : z; qden : positive }
 
+val qeq_dec : q -> q -> bool
+
+val qplus : q -> q -> q
+
+val qmult : q -> q -> q
+
+val qopp : q -> q
+
+val qinv : q -> q
+
 val qred : q -> q
 
 type qc = q
@@ -176,6 +198,63 @@ type qc = q
 val this : qc -> q
 
 val q2Qc : q -> qc
+
+val qc_eq_dec : qc -> qc -> bool
+
+val qcplus : qc -> qc -> qc
+
+val qcmult : qc -> qc -> qc
+
+val qcopp : qc -> qc
+
+val qcminus : qc -> qc -> qc
+
+val qcinv : qc -> qc
+
+val qcdiv : qc -> qc -> qc
+
+val qc_eq_bool : qc -> qc -> bool
+
+type ops = { o0 : __; o1 : __; oadd : (__ -> __ -> __);
+             omul : (__ -> __ -> __); osub : (__ -> __ -> __);
+             oopp : (__ -> __); odiv : (__ -> __ -> __); oinv : (__ -> __);
+             oeqb : (__ -> __ -> bool) }
+
+type car = __
+
+val fpos : ops -> positive -> car
+
+val fz : ops -> z -> car
+
+val fpow : ops -> car -> nat -> car
+
+val fsum : ops -> car list -> car
+
+val qcOps : ops
+
+type 'k cx = { re : 'k; im : 'k }
+
+val c0 : ops -> car cx
+
+val c1 : ops -> car cx
+
+val cadd : ops -> car cx -> car cx -> car cx
+
+val csub : ops -> car cx -> car cx -> car cx
+
+val copp : ops -> car cx -> car cx
+
+val cmul : ops -> car cx -> car cx -> car cx
+
+val cnorm2 : ops -> car cx -> car
+
+val cinv : ops -> car cx -> car cx
+
+val cdiv : ops -> car cx -> car cx -> car cx
+
+val ceqb : ops -> car cx -> car cx -> bool
+
+val cOps : ops -> ops
 
 val qz : q -> z
 
@@ -186,6 +265,16 @@ val qn : q -> nat
 val nq : nat -> q
 
 val qb : q -> bool
+
+val qqc : q -> qc
+
+val qcq : qc -> q
+
+val cQ : ops
+
+val take_cx : q list -> car list
+
+val put_cx : car list -> q list
 
 val getq : q list -> nat -> q
 
@@ -216,6 +305,56 @@ val all_same : nat list -> bool
 
 val stack_sub_tree : 'a1 list list -> nat -> 'a1 list list list option
 
+val etdrk1_integrand_1 : ops -> car -> car -> car -> car
+
+val etdrk1_step :
+  ops -> ('a1 -> car) -> ('a1 -> car) -> (('a1 -> car) -> 'a1 -> car) -> ('a1
+  -> car) -> 'a1 -> car
+
+val etdrk2_integrand_1 : ops -> car -> car -> car -> car
+
+val etdrk2_integrand_2 : ops -> car -> car -> car -> car
+
+val etdrk2_step :
+  ops -> ('a1 -> car) -> ('a1 -> car) -> ('a1 -> car) -> (('a1 -> car) -> 'a1
+  -> car) -> ('a1 -> car) -> 'a1 -> car
+
+val etdrk3_integrand_1 : ops -> car -> car -> car -> car
+
+val etdrk3_integrand_2 : ops -> car -> car -> car -> car
+
+val etdrk3_integrand_3 : ops -> car -> car -> car -> car
+
+val etdrk3_integrand_4 : ops -> car -> car -> car -> car
+
+val etdrk3_integrand_5 : ops -> car -> car -> car -> car
+
+val etdrk3_step :
+  ops -> ('a1 -> car) -> ('a1 -> car) -> ('a1 -> car) -> ('a1 -> car) -> ('a1
+  -> car) -> ('a1 -> car) -> ('a1 -> car) -> (('a1 -> car) -> 'a1 -> car) ->
+  ('a1 -> car) -> 'a1 -> car
+
+val etdrk4_integrand_1 : ops -> car -> car -> car -> car
+
+val etdrk4_integrand_2 : ops -> car -> car -> car -> car
+
+val etdrk4_integrand_3 : ops -> car -> car -> car -> car
+
+val etdrk4_integrand_4 : ops -> car -> car -> car -> car
+
+val etdrk4_integrand_5 : ops -> car -> car -> car -> car
+
+val etdrk4_integrand_6 : ops -> car -> car -> car -> car
+
+val etdrk4_step :
+  ops -> ('a1 -> car) -> ('a1 -> car) -> ('a1 -> car) -> ('a1 -> car) -> ('a1
+  -> car) -> ('a1 -> car) -> ('a1 -> car) -> ('a1 -> car) -> (('a1 -> car) ->
+  'a1 -> car) -> ('a1 -> car) -> 'a1 -> car
+
+val etdrk0_step : ops -> ('a1 -> car) -> ('a1 -> car) -> 'a1 -> car
+
+val order_dispatch : z -> nat option
+
 val aff : z -> z -> z -> z
 
 val affx : z -> z -> z -> z
@@ -225,5 +364,21 @@ val pairf : (z * z) -> z * z
 val optl : q list option -> q list
 
 val run_c14 : z -> q list -> q list
+
+val sel_integrand : z -> z -> car -> car -> car -> car
+
+val triples : car list -> ((car * car) * car) list
+
+val cq_of_z : z -> car
+
+val contour_coef : z -> z -> car -> ((car * car) * car) list -> car
+
+val vec : car list -> nat -> car
+
+val test_nl : nat -> (nat -> car) -> nat -> car
+
+val chunks : nat -> nat -> 'a1 list -> 'a1 list list
+
+val run_c02 : z -> q list -> q list
 
 val run : z -> q list -> q list
